@@ -9,6 +9,7 @@ import (
 
 	"github.com/mdzio/go-mqtt/message"
 	"github.com/mdzio/go-mqtt/sessions"
+	"github.com/mdzio/go-mqtt/verifrt/vsched"
 	"verif/engine/explore"
 	"verif/harness/core"
 	"verif/models/refcodec"
@@ -311,7 +312,7 @@ func alphabetA() []op {
 // C13 entry point.
 func C13(c *core.Ctx) {
 	ops := alphabetA()
-	c.Rep.Bound = "alphabet A: all operation sequences to depth 4 (quick) / 5 (thorough) without de-duplication and BFS to depth 7/9 with de-duplication on (model list, ring geometry, identifier index); alphabet B: capacity sweeps head offset 0..15 x 0..40 in flight x ack orders"
+	c.Rep.Bound = "SCHED: commuting pairs of operations in two threads on a 4-slot queue (head moved by 0/1/3, 2-4 outstanding), every interleaving to 2 (quick) / 3 (thorough) preemptions; alphabet A: all operation sequences to depth 4 (quick) / 5 (thorough) without de-duplication and BFS to depth 7/9 with de-duplication on (model list, ring geometry, identifier index); alphabet B: capacity sweeps head offset 0..15 x 0..40 in flight x ack orders"
 	c.Rep.Rule = fmt.Sprintf("HIST: breadth-first over histories of %d operations (register PUBLISH q1/q2/dup, SUBSCRIBE, UNSUBSCRIBE, PINGREQ over ids 1-3; acknowledge with each of the 7 ack types incl. unknown id 9; collect) on the real Ackqueue, compared step by step with a plain list; distinct = canonical (model list, ring size/head/tail/count)", len(ops))
 	run := func(hist []int) (string, string, int) {
 		in := newInstance(4)
@@ -380,6 +381,123 @@ func C13(c *core.Ctx) {
 		}
 	}
 	capacity(c)
+	if c.HasViolation() || c.Expired() {
+		return
+	}
+	concurrent(c)
+}
+
+// concurrent: the queue is used by two goroutines (the processor acknowledges,
+// the application registers).  Two operations that commute in the model - an
+// acknowledgement for one outstanding request and the registration of a new
+// one, or two acknowledgements for different requests - run in two threads
+// under every interleaving (to a preemption bound) on a queue of 4 slots whose
+// head has moved by 0, 1 or 3 slots and that holds 2, 3 or 4 requests (4: the
+// registration has to grow it).  Afterwards everything is acknowledged in
+// order and collected: what comes back must be what the list model says.
+func concurrent(c *core.Ctx) {
+	bound := 2
+	if c.Thorough() {
+		bound = 3
+	}
+	n := 0
+	for _, headOff := range []int{0, 1, 3} {
+		for _, inflight := range []int{2, 3, 4} {
+			for x := 0; x < inflight; x++ {
+				for _, pair := range []string{"ack||wait", "ack||ack", "ack||acked+wait"} {
+					n++
+					if c.NShards > 1 && n%c.NShards != c.Shard {
+						continue
+					}
+					if c.Expired() || c.HasViolation() {
+						return
+					}
+					headOff, inflight, x, pair := headOff, inflight, x, pair
+					name := fmt.Sprintf("concurrent %s: head moved by %d, %d requests outstanding, acknowledgement for the %dth", pair, headOff, inflight, x+1)
+					body := func() {
+						in := newInstance(4)
+						id := uint16(100)
+						fail := func(v string) bool {
+							if v != "" {
+								vsched.Failf("%s", v)
+								return true
+							}
+							return false
+						}
+						for i := 0; i < headOff; i++ {
+							id++
+							if fail(in.apply(op{kind: opWait, mtype: refcodec.PUBLISH, qos: 1, id: id})) || fail(in.apply(op{kind: opAck, mtype: refcodec.PUBACK, id: id})) || fail(in.apply(op{kind: opAcked})) {
+								return
+							}
+						}
+						var ids []uint16
+						for i := 0; i < inflight; i++ {
+							id++
+							ids = append(ids, id)
+							if fail(in.apply(op{kind: opWait, mtype: refcodec.PUBLISH, qos: 1, id: id})) {
+								return
+							}
+						}
+						vsched.Mark()
+						newID := id + 1
+						var v1, v2 string
+						vsched.Go("acker", func() { v1 = in.apply(op{kind: opAck, mtype: refcodec.PUBACK, id: ids[x]}) })
+						switch pair {
+						case "ack||wait":
+							vsched.Go("registrar", func() { v2 = in.apply(op{kind: opWait, mtype: refcodec.PUBLISH, qos: 1, id: newID}) })
+							ids = append(ids, newID)
+						case "ack||ack":
+							y := (x + 1) % inflight
+							vsched.Go("acker-2", func() { v2 = in.apply(op{kind: opAck, mtype: refcodec.PUBACK, id: ids[y]}) })
+						case "ack||acked+wait":
+							// nothing is complete at the head unless x is the head: only registered when it is not
+							if x == 0 {
+								vsched.Go("registrar", func() { v2 = in.apply(op{kind: opWait, mtype: refcodec.PUBLISH, qos: 1, id: newID}) })
+							} else {
+								vsched.Go("collector+registrar", func() {
+									v2 = in.apply(op{kind: opAcked})
+									if v2 == "" {
+										v2 = in.apply(op{kind: opWait, mtype: refcodec.PUBLISH, qos: 1, id: newID})
+									}
+								})
+							}
+							ids = append(ids, newID)
+						}
+						vsched.Quiesce()
+						if alive := vsched.Alive(); len(alive) > 0 {
+							vsched.Failf("an operation on the queue does not return: %s", core.ParkedString(alive))
+							return
+						}
+						if fail(v1) || fail(v2) {
+							return
+						}
+						// drain in order
+						for _, d := range ids {
+							if fail(in.apply(op{kind: opAck, mtype: refcodec.PUBACK, id: d})) || fail(in.apply(op{kind: opAcked})) {
+								return
+							}
+						}
+						if len(in.model.q) != 0 {
+							vsched.Failf("harness: model not drained")
+						}
+					}
+					st := c.RunSched(explore.SchedOpts{Name: name, Bound: bound, Cache: true, UseMark: true, Body: body, MaxPoints: 20000,
+						Check: func(r *vsched.Result) explore.Verdict {
+							if r.Status == vsched.StCrash {
+								return explore.Verdict{Violation: "the queue panicked: " + strings.SplitN(r.Crash, "\n", 2)[0], Outcome: "crash"}
+							}
+							if len(r.Failures) > 0 {
+								return explore.Verdict{Violation: r.Failures[0], Outcome: "fail"}
+							}
+							return explore.Verdict{Outcome: "ok"}
+						}},
+						func(v *explore.Violation) string { return "C13 concurrent " + pair + " :: " + classOf(v.Message) })
+					_ = st
+				}
+			}
+		}
+	}
+	c.Rep.Sample(map[string]interface{}{"search": "concurrent", "pairs": []string{"ack||wait", "ack||ack", "ack||acked+wait"}, "head_offsets": []int{0, 1, 3}, "outstanding": []int{2, 3, 4}, "preemption_bound": bound})
 }
 
 // classOf makes a fingerprint from a violation message: text up to the first ':' or '(' without digits.
